@@ -8,6 +8,7 @@ GROUPS = {}
 
 
 def reg(g, props):
+    g["props"] = list(props)
     GROUPS[g["name"]] = g
     for p in props:
         GROUP_OF[p] = g["name"]
@@ -577,7 +578,7 @@ def c12_decode_for(kind, maxrecv, size):
         nid = 1
         streaming = 0
         for t in tokens:
-            if streaming > 0 and t in (1, 2, 3, 4, 6):
+            if streaming > 0 and t in (1, 2, 3, 4, 6, 9):
                 # a well-formed peer finishes the payload before the next packet
                 cmds.append({"c": "in", "p": {"t": "payload", "n": streaming}})
                 streaming = 0
@@ -593,7 +594,8 @@ def c12_decode_for(kind, maxrecv, size):
                     streaming = 8
             elif t == 5:    # next 4 payload bytes
                 if streaming > 0:
-                    cmds.append({"c": "in", "p": {"t": "payload", "n": 4}}); streaming -= 4
+                    n = 4 if streaming <= 8 else 30
+                    cmds.append({"c": "in", "p": {"t": "payload", "n": n}}); streaming -= n
             elif t == 6:
                 if kind == "v5s":
                     cmds.append({"c": "in", "p": {"t": "subscribe", "id": nid}}); nid += 1
@@ -605,6 +607,10 @@ def c12_decode_for(kind, maxrecv, size):
                 cmds.append({"c": "complete", "j": 0, "o": "ok", "read": "all"})
             elif t == 8:
                 cmds.append({"c": "complete", "j": 1, "o": "ok", "read": "all"})
+            elif t == 9:    # streamed QoS 1 publish that alone is larger than the byte limit: header + 4 of 70 bytes
+                if streaming == 0:
+                    cmds.append({"c": "in", "p": {"t": "publish", "q": 1, "id": nid, "topic": "t", "plen": 70, "send": 4}}); nid += 1
+                    streaming = 66
         if streaming > 0:
             cmds.append({"c": "in", "p": {"t": "payload", "n": streaming}})
         cmds.append({"c": "drain", "read": "all"})
@@ -622,6 +628,10 @@ def c12_configs(tier):
     for kind, mr, size in combos:
         cs.append((f"{kind}_r{mr}_s{size}", PKTSEQ_CFG.format(nt=8, maxlen=L, minlen=2), "PktSeq",
                    c12_decode_for(kind, mr, size), [None]))
+    # overlapping streamed publishes around the byte limit (token 9): every sequence up to 3 (quick) / 4
+    for kind, mr, size in [("v3s", 0, 40), ("v5s", 2, 40), ("v3s", 2, 40)]:
+        cs.append((f"{kind}_r{mr}_s{size}_big", PKTSEQ_CFG.format(nt=9, maxlen=3 if tier == "quick" else 4, minlen=2), "PktSeq",
+                   c12_decode_for(kind, mr, size), [None], 100000))
     return cs
 
 
